@@ -20,7 +20,8 @@ RULE = ('estimated models with 2..8 states over all label alphabets, lag 1..4, e
         'T[i,perm k]), N frames, first frame = start, labels of the input only, identical output from '
         'identical generator state. Non-trivial: >= 3 states and a row with a zero entry.'
         ' Added classes: a transition of probability < 1e-5 (3.6e5 frames), > 64/128/256 states, user matrices with entries ~1e-6 (the table propagate_tmat really passes to the kernel is captured), related history first (the same frames joined/split, or as LumpedStateTraj, are sampled before).'
-        ' Later: chains of 4097..9000 frames on models without self transitions, user matrices normalised only within 1e-8, StateTraj objects (negative gapped labels) whose trajectories were read before.')
+        ' Later: chains of 4097..9000 frames on models without self transitions, user matrices normalised only within 1e-8, StateTraj objects (negative gapped labels) whose trajectories were read before.'
+        ' Fifth/sixth batch: user matrices with trailing zeros whose float cumulative sum stops below one, NumPy (unsigned) lag times with > 256 frames.')
 TRUSTED = ['uniformity and independence of the Mersenne twister draws (CPython / numba)',
            'the 1e-12 gap between float and exact cumulative sums is measured, not proved']
 ASSUMPTIONS = ['draws u in [0,1)']
@@ -40,14 +41,14 @@ def gen(rng, tier):
         steps = rng.choice([1, 1, 2, 3, 5, 10, 50, 200] if tier == 'quick' else list(range(1, 65)))
         yield {'trajs': trajs, 'lag': lag, 'start': rng.choice(present), 'steps': steps, 'seed': rng.randrange(2**31),
                'alpha': akind, 'tmat': None}
-    for _ in range(4 if tier == 'quick' else 60):
+    for _i in range(4 if tier == 'quick' else 60):
         # the lag time as a NumPy integer scalar (signed and unsigned, narrow) and a trajectory of more than 256 frames
         # whose later part changes the counts
         labs, akind = G.alphabet(rng, k=rng.randint(3, 4))
         first = G.traj(rng, labs[:-1], rng.randint(260, 300), sticky=0.6)
         t = first + G.traj(rng, labs, rng.randint(150, 400), sticky=0.3) + labs
         yield {'trajs': [t], 'lag': rng.choice([1, 2, 3]), 'start': rng.choice(labs), 'steps': rng.choice([20, 200]), 'seed': rng.randrange(2**31),
-               'alpha': akind + '+typed-lag', 'tmat': None, 'lagtype': rng.choice(['uint8', 'uint8', 'int8', 'uint16', 'int16', 'uint64'])}
+               'alpha': akind + '+typed-lag', 'tmat': None, 'lagtype': ['uint8', 'uint16', 'uint8', 'int8', 'uint64', 'int16'][_i % 6]}
     for _ in range(2 if tier == 'quick' else 12):       # transitions with probability below 1e-5
         labs, akind = G.alphabet(rng, k=rng.randint(2, 4))
         rle = G.rare_rle(rng, labs)
